@@ -331,6 +331,19 @@ def stepLine (line : String) : String :=
         | none => bad
         | some r => s!"{showRats r.sys.ts.reverse} ; {showRats r.ys.reverse.flatten} ; {showRat r.sys.dt} ; {r.sys.status}"
     | _, _, _, _, _, _, _, _, _ => bad
+  -- fdcol <base order> <n> <terms> <y> <idx> <dy> : one column of JacobianWrapper.estimate (DV.Jac.fdColumn), exact, with the regenerated stencil
+  | ["fdcol", order, n, terms, y, idx, dy] =>
+    match order.toNat?, n.toNat?, parseList? parseTerm? (terms.replace ";" ","), parseList? parseRat? y, idx.toNat?, parseRat? dy with
+    | some order, some n, some terms, some y, some idx, some dy =>
+      match Gen.allStencils.find? (·.n == order) with
+      | none => "unknown-stencil"
+      | some S =>
+        if dy == 0 then "zero-division" else
+        let st := List.zip (S.nodes.map (tabRat S.K)) (S.weights.map (tabRat S.K))
+        let ops := RK.listOpsN (α := Rat) n
+        let e : List Rat := (List.range n).map (fun i => if i == idx then 1 else 0)
+        showRats (Jac.fdColumn ops ops (fun w => polyRhs n terms 0 w) y e dy st)
+    | _, _, _, _, _, _ => bad
   -- stageres <method> <n> <terms> <t> <y> <h> <stages flattened> : residual of the stage equations and the increment from given stages
   | ["stageres", name, n, terms, t, y, h, st] =>
     match Gen.allRK.find? (·.name == name), n.toNat?, parseList? parseTerm? (terms.replace ";" ","), parseRat? t,
